@@ -61,7 +61,7 @@ def guarded_execute(scn, case, mode):
 def _new_agg():
     return {'runs': 0, 'outcomes': {}, 'by_routine': {}, 'events': 0, 'forced': 0, 'fired': {}, 'probes': {},
             'digests': set(), 'states': set(), 'violations': [], 'samples': [], 'harness_errors': [], 'policies': {},
-            'max_draws': 0, 'extra': {}}
+            'max_draws': 0, 'max_tail': 0, 'extra': {}}
 
 
 def _bump(d, k, n=1):
@@ -73,6 +73,7 @@ def _merge(a, b):
     a['events'] += b['events']
     a['forced'] += b['forced']
     a['max_draws'] = max(a['max_draws'], b['max_draws'])
+    a['max_tail'] = max(a['max_tail'], b['max_tail'])
     for key in ('outcomes', 'fired', 'probes', 'policies', 'extra'):
         for k, v in b[key].items():
             _bump(a[key], k, v)
@@ -108,6 +109,8 @@ def _run_block(args):
         agg['events'] += res.get('ndraws', 0)
         agg['max_draws'] = max(agg['max_draws'], res.get('ndraws', 0))
         agg['forced'] += res.get('forced', 0)
+        if oc in ('ok', 'rejected') and res.get('tail_draws') is not None:
+            agg['max_tail'] = max(agg['max_tail'], res['tail_draws'])
         _bump(agg['policies'], (case.get('policy') or {}).get('name', 'fair'))
         for k, v in (res.get('fired') or {}).items():
             _bump(agg['fired'], k, v)
@@ -330,6 +333,7 @@ def run_check(prop, level, scenarios, tier, S, predicates=None, rule='', assumpt
         'seeds_per_hour': int(total['runs'] / max(wall, 1e-6) * 3600),
         'simulated_time_events': total['events'],
         'max_events_in_one_run': total['max_draws'],
+        'bounded_progress_max_draws_after_last_forced_draw': total['max_tail'],
         'forced_draws': total['forced'],
         'fault_kinds_fired': dict(sorted(total['fired'].items())),
         'policies': dict(sorted(total['policies'].items())),
